@@ -2,11 +2,11 @@ PROPS = {
     "C42": dict(engine="dialmon", race=True, level="exploration", design="C42",
                 technique="runtime monitor at a harness DialFunc: scripted completion orders (exhaustive core), random schedules, free-running stress under -race; "
                           "connection open/close accounting at goroutine-level quiescence",
-                text="dcs.Plain Primary/MediaOnly/CDN are driven with a fake dialer whose connections record Close; every dial's outcome (success, dial error, handshake "
-                     "failure after establishment, unparsable secret, blocks until context done, late success after the call returned), the completion order and the caller's "
+                text="dcs.Plain Primary/MediaOnly/CDN are driven with a fake dialer whose connections record Close; every dial's outcome (success, dial error incl. errors.Join/multierr-combined dial errors, handshake "
+                     "failure after establishment incl. a Close() that also fails, unparsable secret, blocks until context done, late success after the call returned), the completion order and the caller's "
                      "cancellation position are scheduled. At quiescence (all dials returned, goroutine count back at the pre-call baseline): nil error => exactly the returned "
                      "connection is open; error => no established connection is open; without cancellation an error is returned only after every dial failed and contains every "
-                     "dial failure. Exhaustive for 2..4 dials over {S,F,H,B}^n x completion orders x cancellation positions (canonical schedules; x 3 methods in the thorough tier, methods rotating in the quick tier); random for 5 dials "
+                     "dial failure; a call still blocked when every dial returned and all goroutines are parked is a hang. Exhaustive for 2..4 dials over {S,F,H,B}^n x completion orders x cancellation positions (canonical schedules; x 3 methods in the thorough tier, methods rotating in the quick tier); random for 5 dials "
                      "with random protocol/obfuscation options; stress batches of 8 concurrent calls.",
                 note="Schedules beyond 4 dials are sampled; FakeTLS secrets (handshake reads from the peer) are not used; quiescence relies on runtime.NumGoroutine and, before "
                      "any leak verdict, on a stop-the-world goroutine dump; the scripted order between two failures is enforced by waiting for the dial goroutine's exit.",
